@@ -887,6 +887,72 @@ func (h *c04Harness) directPath(res *hx.Result, noncallKnown bool) {
 	res.Dist("direct-path:cancelled-call")
 }
 
+// oversizedCall: a call whose arguments serialise to more than net.MaxPayloadSize bytes, through
+// the real client against the real server (byte relay: such a frame cannot be parsed by the
+// harness either).  "Each call returns exactly one outcome": it must return (an error) within the
+// deadline, and calls on a fresh connection still work afterwards.  Oracle only.
+func (h *c04Harness) oversizedCall(res *hx.Result) {
+	h.nconn++
+	name := fmt.Sprintf("c04big%d", h.nconn)
+	cs, ss := newAhStream(name+"-client"), newAhStream(name+"-server")
+	cs.onBytes = func(b []byte) { ss.Inject(b) }
+	ss.onBytes = func(b []byte) { cs.Inject(b) }
+	cs.onClose = func() { ss.PeerClose() }
+	ss.onClose = func() { cs.PeerClose() }
+	if err := h.lis.Offer(ss, c04Deadline); err != nil {
+		h.note("oversized call: " + err.Error())
+		return
+	}
+	ep := net.NewEndPoint(cs)
+	defer ep.Close()
+	if err := bus.AuthenticateUser(ep, "", ""); err != nil {
+		h.note("oversized call: authenticate: " + err.Error())
+		return
+	}
+	client := bus.NewClient(bus.NewChannel(ep, bus.DefaultCap()))
+	if o, e := client.Call(nil, 1, 1, 100, c04Str("big-before")); e != nil || string(o) != string(c04Str("re:big-before#1")) {
+		res.Fail("wrong-or-foreign-result", fmt.Sprintf("byte-relayed connection: Hello(\"big-before\") returned %x, %v", o, e))
+	}
+	size := int(net.MaxPayloadSize) + 1
+	payload := make([]byte, size)
+	binary.LittleEndian.PutUint32(payload, uint32(size-4)) // one string argument filling the payload
+	ret := make(chan error, 1)
+	go func() { _, e := client.Call(nil, 1, 1, 100, payload); ret <- e }()
+	deadline := 3 * time.Second
+	desc := fmt.Sprintf("Client.Call(nil, 1, 1, 100, payload of %d bytes = net.MaxPayloadSize+1) through a real client and server", size)
+	select {
+	case e := <-ret:
+		if e == nil {
+			res.Fail("oversized-call-succeeded", desc+": returned without error")
+		}
+		res.Dist("oversized-call:returned-error")
+	case <-time.After(deadline):
+		res.Fail("call-without-outcome", fmt.Sprintf("%s: the call is still pending after %v (no reply, no error, connection not closed): zero outcomes instead of exactly one", desc, deadline))
+	}
+	res.Count(desc, true)
+	// a fresh connection is served as usual
+	l, err := h.newLink()
+	if err != nil {
+		res.Fail("call-without-outcome", "after the oversized call a fresh connection cannot be set up: "+err.Error())
+		return
+	}
+	defer l.ep.Close()
+	type r struct {
+		o []byte
+		e error
+	}
+	ch := make(chan r, 1)
+	go func() { o, e := l.client.Call(nil, 1, 1, 100, c04Str("big-after")); ch <- r{o, e} }()
+	select {
+	case x := <-ch:
+		if x.e != nil || string(x.o) != string(c04Str("re:big-after#1")) {
+			res.Fail("wrong-or-foreign-result", fmt.Sprintf("after the oversized call, Hello(\"big-after\") on a fresh connection returned %x, %v", x.o, x.e))
+		}
+	case <-time.After(c04Deadline):
+		res.Fail("call-without-outcome", "after the oversized call, a call on a fresh connection did not return")
+	}
+}
+
 // ---------- defect probes (the witnesses of C04_refuted_*) ----------
 
 func (h *c04Harness) probeSwitches(res *hx.Result) (noncall, postAnswered bool) {
@@ -1024,6 +1090,8 @@ func runC04(res *hx.Result, rng *hx.Rng, tier string, outdir string) {
 		runRaw(c04GenRaw(rng, k))
 	}
 
+	// (vi) a call above the payload limit still has exactly one outcome
+	h.oversizedCall(res)
 	// (iv) objects that are not behind the server's connection filter
 	h.directPath(res, noncall)
 	// (v) two clients on one endpoint, same-numbered calls, answers crossing
